@@ -31,7 +31,8 @@ Section Exits.
   Lemma leaf1_Hth : 1 + theta El <> 0.
   Proof.
     destruct (leaf1_facts _ _ _ _ _ _ _ Hleaf) as [_ [_ [_ [_ G]]]].
-    unfold gen_init_guard3 in G. rewrite cosIO_spec in G. fold El in G.
+    unfold gen_init_guard3 in G. rewrite ?cosIO_spec, ?oe_incl, ?half_angle_1pcos in G.
+    replace (cos (P_Sgp4Init.i0 incl_deg)) with (theta El) in G by reflexivity. fold El in G.
     intros Z. rewrite Z, Rabs_R0 in G. lra.
   Qed.
 
